@@ -107,7 +107,7 @@ def main() -> int:
             fh.write("")
         with open(os.path.join(tmp, "msmart", "unit.py"), "w") as fh:
             fh.write(textwrap.dedent(GOOD_BAD))
-        prog = Program(root=tmp)
+        prog = Program(root=tmp, rename="none")
         q = "msmart.unit."
         t = Val(taint=True, kind="bytes")
         # E4: may-raise with length facts and handler routing
@@ -168,6 +168,18 @@ def main() -> int:
         ea = EventAnalysis(must=True, on_branch=lambda test, truth, st: ["guard"] if not truth else [])
         comp = run_events(prog, prog.func(q + "guarded"), ea)
         check("events:dominance", all("guard" in st for st, n in comp.returns if n is not None))
+        # names: a consistent rename of private names is recognised (and only that)
+        import ast
+        from . import names
+        old = "class K:\n def __init__(self):\n  self._buf = b''\n  self._n = 0\n def feed(self, d):\n  self._buf += d\n  self._n += 1\n  return self._cut()\n def _cut(self):\n  x = self._buf[:2]\n  self._buf = self._buf[2:]\n  return x\n"
+        new = old.replace("_buf", "_pending").replace("_cut", "_take") + " def _extra(self):\n  return self._n\n"
+
+        def ref_of(src):
+            return names.survey({"msmart/k.py": ast.parse(src)})
+        back, _d = names.match(names.survey({"msmart/k.py": ast.parse(new)}), ref_of(old))
+        check("names:rename", back == {"_pending": "_buf", "_take": "_cut"})
+        back, _d = names.match(names.survey({"msmart/k.py": ast.parse(old + " def _extra(self):\n  return self._n\n")}), ref_of(old))
+        check("names:nothing-missing", back == {})
     finally:
         shutil.rmtree(tmp, ignore_errors=True)
     if fails:
